@@ -1148,12 +1148,34 @@ def events_agree(impl, model, wire32):
     return True
 
 
-def check_histories(ctx, utils, only=None):
-    rng = ctx.rng.fork("hist")
-    todo = []
+def broken(ctx):
+    """something already decides the verdict: stop generating further work"""
+    return bool(ctx.failures or ctx.disagreements)
+
+
+def check_histories(ctx, utils, only=None, phase="all"):
+    """phase "first": the fixed histories (two device objects, interleavings, boundaries) as one
+    small chunk; "rest": seeded random histories, chunk by chunk, stopping after the first
+    chunk that produced a failure or a disagreement (a broken tree gets its verdict in about
+    the normal wall time even if every further case would be slow)."""
     if only is not None:
-        todo = [only]
-    else:
+        return evaluate_histories(ctx, utils, [only])
+    if phase in ("all", "first"):
+        evaluate_histories(ctx, utils, fixed_histories())
+        if phase == "first" or broken(ctx):
+            return broken(ctx)
+    rng = ctx.rng.fork("hist")
+    total, chunk = ctx.scale(600, 15000), ctx.scale(150, 1500)
+    done = 0
+    while done < total and not broken(ctx):
+        evaluate_histories(ctx, utils, random_histories(ctx, rng, min(chunk, total - done)))
+        done += chunk
+    ctx.note("hist:random-generated", min(done, total))
+    return broken(ctx)
+
+
+def fixed_histories():
+    if True:
         fixed = [
             ("raop", [("read", None), ("set", 50.0), ("read", None), ("up", None), ("read", None)], {"client": True}),
             ("raop", [("report", NAN), ("up", None), ("read", None), ("down", None)], {"client": True}),
@@ -1205,8 +1227,15 @@ def check_histories(ctx, utils, only=None):
             ("raop2", [("set", 20.0), ("B:report", 70.0), ("read", None), ("B:up", None), ("read", None), ("B:read", None)], {"client": True}),
             ("raop2", [("B:set", 0.0), ("set", 100.0), ("B:stream", -15.0), ("read", None), ("stream", None), ("B:read", None), ("read", None)], {"client": False}),
         ]
-        todo += fixed
-        for _ in range(ctx.scale(600, 15000)):
+        # the multi-device cases first
+        fixed.sort(key=lambda t: t[0] != "raop2")
+        return fixed
+
+
+def random_histories(ctx, rng, count):
+    todo = []
+    if True:
+        for _ in range(count):
             n = rng.randint(1, ctx.scale(14, 30))
             if rng.chance(0.12):
                 both = [(("B:" + o) if rng.chance(0.5) else o, x) for o, x in random_history(rng, n, "raop") if o not in ("streamdur", "setdur")]
@@ -1217,6 +1246,10 @@ def check_histories(ctx, utils, only=None):
             else:
                 todo.append(("mrp", random_history(rng, n, "mrp"), {"initial": rng.choice([0.0, 1.0, 0.5, 0.33, 0.97, 0.02])}))
 
+    return todo
+
+
+def evaluate_histories(ctx, utils, todo):
     async def run_all():
         out = []
         for proto, ops, opt in todo:
@@ -1344,11 +1377,19 @@ def run(ctx):
     from pyatv.protocols.airplay import utils
 
     try:
-        check_conversions(ctx, utils, support)
-        check_guards(ctx)
-        check_companion(ctx)
-        check_histories(ctx, utils)
-        check_reachable(ctx, utils)
+        # small first chunk: several device objects alive at once, interleaved operations,
+        # boundaries; then stage by stage, stopping as soon as the verdict is decided
+        stages = [lambda: check_histories(ctx, utils, phase="first"),
+                  lambda: check_conversions(ctx, utils, support),
+                  lambda: check_guards(ctx),
+                  lambda: check_companion(ctx),
+                  lambda: check_histories(ctx, utils, phase="rest"),
+                  lambda: check_reachable(ctx, utils)]
+        for stage in stages:
+            stage()
+            if broken(ctx):
+                ctx.note("stopped-early")
+                break
     finally:
         unpatch_raop()
 
